@@ -75,6 +75,8 @@ GROUPS = {
                state={"self._events": ("L", ("R", "SimEvent"))}, order="lt", fuel=True, props={"CANCELED": "CANCELED"}),
             Fn("C14", "mesa/experimental/devs/eventlist.py", "EventList.__len__", "len_", {}, self_rec="EventList"),
             Fn("C14", "mesa/experimental/devs/eventlist.py", "EventList.is_empty", "is_empty", {}, self_rec="EventList"),
+            Fn("C14", "mesa/experimental/devs/eventlist.py", "EventList.peak_ahead", "peak_ahead", {"n": "Int"}, self_rec="EventList",
+               order="lt", props={"CANCELED": "CANCELED"}),
         ],
     },
     "Steps": {
@@ -105,11 +107,12 @@ REGISTRY = {
     "C14": {
         "groups": ["Devs"],
         "functions": ["SimulationEvent.CANCELED", "SimulationEvent.__lt__", "EventList.add_event", "EventList.pop_event",
-                      "EventList.__len__", "EventList.is_empty"],
+                      "EventList.__len__", "EventList.is_empty", "EventList.peak_ahead"],
         "lean_modules": ["MesaModel.Proofs.XlateDevs"],
         "theorems": ["Mesa.Devs." + t for t in (
             "C14_gen_CANCELED_eq_model", "C14_gen_lt_eq_model", "C14_gen_add_event_eq_model", "C14_gen_pop_event_eq_model",
-            "C14_gen_len_eq_model", "C14_gen_is_empty_eq_model", "C14_add_event_generated", "C14_pop_event_generated")],
+            "C14_gen_len_eq_model", "C14_gen_is_empty_eq_model", "C14_add_event_generated", "C14_pop_event_generated",
+            "C14_gen_peak_ahead_eq_model")],
     },
     "C09": {
         "groups": ["Legacy"],
